@@ -2,7 +2,7 @@
    only), and the dispatcher run : sx -> sx that the extracted driver and the
    vm_compute cross-check both call. *)
 From SV Require Export Model.Num Model.Expr Model.Heap Model.Plot Model.Prim.
-From SV Require Import Lemmas.Measure Lemmas.UnionSound Lemmas.DiffSound.
+From SV Require Import Lemmas.Measure Lemmas.UnionSound Lemmas.DiffSound Lemmas.Convex.
 Open Scope Q_scope.
 
 Fixpoint sx_eqb (x y : sx) : bool :=
@@ -304,6 +304,17 @@ Definition run (req : sx) : sx :=
           (* the decidable hypotheses of Props/C01.v C01_difference_sound *)
           match d_jordan ja, d_jordan jb, d_point p with
           | Some ja, Some jb, Some p => e_bool (diff_hyps_b ja jb p)
+          | _, _, _ => bad end
+      | 49%nat, [va; vb; p] =>
+          (* Props/C01.v C01_*_sound_convex on two vertex lists: the decidable convexity predicate, the
+             decidable hypotheses of the three theorems at p, and the curves poly_of va / poly_of vb the
+             theorems speak about (the harness compares them with what it gave the implementation) *)
+          match d_listx d_point va, d_listx d_point vb, d_point p with
+          | Some va, Some vb, Some p =>
+              let ja := poly_of va in let jb := poly_of vb in
+              L [e_bool (convex_ccw_b va); e_bool (convex_ccw_b vb);
+                 e_bool (sound_hyps_b ja jb true false p); e_bool (sound_hyps_b ja jb false true p);
+                 e_bool (diff_hyps_b ja jb p); e_jordan ja; e_jordan jb]
           | _, _, _ => bad end
       | 43%nat, [k; a; c] =>
           match d_nat k, d_pyarg a, d_point c with
